@@ -9,7 +9,8 @@ use metrique::{AppendAndCloseOnDrop, AppendAndCloseOnDropHandle, CloseValue, Flu
 use metrique_writer::sink::FlushWait;
 use metrique_writer::test_util::to_test_entry;
 use std::sync::atomic::{AtomicUsize, Ordering::SeqCst};
-use std::sync::{Arc, Mutex};
+use std::cell::RefCell;
+use std::sync::{Arc, Condvar, Mutex};
 
 /// A field whose content is the list of mutations applied to it (also through `&`, for handle clones).
 #[derive(Default)]
@@ -68,6 +69,8 @@ impl Record {
 pub struct Sink {
     pub tracker: Arc<Tracker>,
     pub records: Arc<Mutex<Vec<Record>>>,
+    /// for scheduled runs: the scheduler step during which each record was appended
+    pub seqs: Arc<Mutex<Vec<usize>>>,
 }
 impl<T: Entry> EntrySink<T> for Sink {
     fn append(&self, entry: T) {
@@ -80,6 +83,7 @@ impl<T: Entry> EntrySink<T> for Sink {
             log,
         };
         self.records.lock().unwrap().push(r);
+        self.seqs.lock().unwrap().push(current_step());
     }
     fn flush_async(&self) -> FlushWait {
         FlushWait::ready()
@@ -243,8 +247,278 @@ fn exec_seq(ops: &[Op]) -> Sx {
     Sx::L(vec![Sx::L(obs), Sx::L(recs)])
 }
 
+
+// ------------------------------------------------------------------------------------------------
+// Cooperative scheduler over the sync points (cfg(metrique_verif) hooks in DropAll::drop and
+// SlotGuard::drop, plus one at the beginning of every action): exactly one logical thread runs at a
+// time, from one sync point to the next, chosen by the schedule. The execution is therefore a
+// sequentially consistent interleaving of the blocks between sync points = a label list of the model.
+
+#[derive(Clone, Copy, PartialEq, Debug)]
+pub enum Status {
+    Running,
+    Parked(&'static str),
+    Done,
+}
+struct SchedSt {
+    status: Vec<Status>,
+    turn: Option<usize>,
+}
+pub struct Sched {
+    st: Mutex<SchedSt>,
+    cv: Condvar,
+    step: AtomicUsize,
+}
+/// The index of the scheduler step (grant) the calling logical thread is executing; 0 outside the scheduler.
+pub fn current_step() -> usize {
+    CUR.with(|c| c.borrow().as_ref().map(|(s, _)| s.step.load(SeqCst)).unwrap_or(0))
+}
+thread_local! {
+    static CUR: RefCell<Option<(Arc<Sched>, usize)>> = const { RefCell::new(None) };
+}
+/// Yield-only mode for free-running stress: a sync point becomes a seeded number of `yield_now`s.
+thread_local! {
+    static PERTURB: RefCell<Option<Rng>> = const { RefCell::new(None) };
+}
+pub fn install_controller() {
+    static ONCE: std::sync::Once = std::sync::Once::new();
+    ONCE.call_once(|| {
+        metrique::verif::install(Some(Arc::new(|name: &'static str| sync_point(name))));
+    });
+}
+/// Reached by library hooks (through the installed controller) and by harness code directly.
+pub fn sync_point(name: &'static str) {
+    let cur = CUR.with(|c| c.borrow().clone());
+    if let Some((s, tid)) = cur {
+        s.pause(tid, name);
+        return;
+    }
+    let n = PERTURB.with(|p| p.borrow_mut().as_mut().map(|r| r.below(4)));
+    if let Some(n) = n {
+        for _ in 0..n {
+            std::thread::yield_now();
+        }
+    }
+}
+pub fn point_code(name: &str) -> u64 {
+    match name {
+        "dropall.upgraded" => 1,
+        "dropall.taken" => 2,
+        "dropall.unlocked" => 3,
+        "slotguard.sent" => 4,
+        "close.field" => 5,
+        _ => 0, // "op" (between actions) and "done"
+    }
+}
+impl Sched {
+    fn pause(&self, tid: usize, name: &'static str) {
+        let mut st = self.st.lock().unwrap();
+        st.status[tid] = Status::Parked(name);
+        self.cv.notify_all();
+        while st.turn != Some(tid) {
+            st = self.cv.wait(st).unwrap();
+        }
+        st.turn = None;
+        st.status[tid] = Status::Running;
+    }
+    fn finish(&self, tid: usize) {
+        let mut st = self.st.lock().unwrap();
+        st.status[tid] = Status::Done;
+        self.cv.notify_all();
+    }
+    /// Runs `nthreads` logical threads (`body(tid)`, which must call `sync_point("op")` before every action)
+    /// under the control of `choose`, which picks among the runnable parked threads. `blocked` tells which
+    /// parked threads cannot proceed (they would block on a lock held by another parked thread).
+    /// Returns the trace [(granted thread, sync point it reached next)] and the branching degree of every step.
+    pub fn run(
+        nthreads: usize,
+        body: Arc<dyn Fn(usize) + Send + Sync>,
+        blocked: &dyn Fn(&[(usize, &'static str)], usize) -> bool,
+        choose: &mut dyn FnMut(&[usize]) -> usize,
+    ) -> (Vec<(usize, &'static str)>, Vec<usize>, bool) {
+        install_controller();
+        let s = Arc::new(Sched { st: Mutex::new(SchedSt { status: vec![Status::Running; nthreads], turn: None }), cv: Condvar::new(), step: AtomicUsize::new(0) });
+        let mut joins = vec![];
+        for tid in 0..nthreads {
+            let s2 = s.clone();
+            let b = body.clone();
+            joins.push(std::thread::spawn(move || {
+                CUR.with(|c| *c.borrow_mut() = Some((s2.clone(), tid)));
+                let r = std::panic::catch_unwind(std::panic::AssertUnwindSafe(|| b(tid)));
+                CUR.with(|c| *c.borrow_mut() = None);
+                s2.finish(tid);
+                r.is_ok()
+            }));
+        }
+        let mut trace = vec![];
+        let mut branching = vec![];
+        let mut deadlock = false;
+        loop {
+            let mut st = s.st.lock().unwrap();
+            while st.status.iter().any(|x| *x == Status::Running) {
+                st = s.cv.wait(st).unwrap();
+            }
+            let parked: Vec<(usize, &'static str)> = st.status.iter().enumerate()
+                .filter_map(|(i, x)| if let Status::Parked(n) = x { Some((i, *n)) } else { None }).collect();
+            if parked.is_empty() {
+                break;
+            }
+            let mut runnable: Vec<usize> = parked.iter().filter(|(t, _)| !blocked(&parked, *t)).map(|(t, _)| *t).collect();
+            if runnable.is_empty() {
+                // cannot happen unless the implementation deadlocks; release everybody to terminate
+                deadlock = true;
+                runnable = parked.iter().map(|(t, _)| *t).collect();
+            }
+            branching.push(runnable.len());
+            let t = choose(&runnable);
+            s.step.store(trace.len(), SeqCst);
+            st.turn = Some(t);
+            st.status[t] = Status::Running;
+            s.cv.notify_all();
+            while st.status[t] == Status::Running {
+                st = s.cv.wait(st).unwrap();
+            }
+            trace.push((t, match st.status[t] { Status::Parked(n) => n, _ => "done" }));
+        }
+        let mut all_ok = true;
+        for j in joins {
+            all_ok &= j.join().unwrap_or(false);
+        }
+        (trace, branching, all_ok && !deadlock)
+    }
+}
+
+/// A thread parked before the guard mutex cannot proceed while another parked thread holds it.
+pub fn keepalive_blocked(parked: &[(usize, &'static str)], t: usize) -> bool {
+    let me = parked.iter().find(|(x, _)| *x == t).map(|(_, n)| *n).unwrap_or("");
+    me == "dropall.upgraded" && parked.iter().any(|(x, n)| *x != t && *n == "dropall.taken")
+}
+
+/// One run of a threaded case: `setup` on the calling thread, then the per-thread programs under `choose`.
+/// Returns (implementation output, branching degrees, actual thread sequence).
+fn exec_threads(setup: &[Op], prog: &[(usize, Op)], choose: &mut dyn FnMut(&[usize]) -> usize) -> (Sx, Vec<usize>, Vec<usize>) {
+    let nthreads = prog.iter().map(|(t, _)| *t + 1).max().unwrap_or(0);
+    let mut w = World::new();
+    for &op in setup {
+        w.apply(op);
+    }
+    let sink = w.sink.clone();
+    let world = Arc::new(Mutex::new(w));
+    let progs: Vec<Vec<Op>> = (0..nthreads).map(|t| prog.iter().filter(|(x, _)| *x == t).map(|(_, o)| *o).collect()).collect();
+    let w2 = world.clone();
+    let body: Arc<dyn Fn(usize) + Send + Sync> = Arc::new(move |tid| {
+        for &op in &progs[tid] {
+            sync_point("op");
+            apply_shared(&w2, op);
+        }
+    });
+    let (trace, branching, ok) = Sched::run(nthreads, body, &keepalive_blocked, choose);
+    // counts are read after the fact from the order of events: every grant is one block, the sink's record
+    // count after each block is recovered from the records' sequence numbers
+    let recs = sink.records.lock().unwrap().clone();
+    let seqs = sink.seqs.lock().unwrap().clone();
+    let mut obs = vec![];
+    for (j, (_t, name)) in trace.iter().enumerate() {
+        let cnt = seqs.iter().filter(|&&b| b <= j).count();
+        obs.push(Sx::L(vec![sx::n(point_code(name)), sx::n(cnt as u64)]));
+    }
+    let tids: Vec<usize> = trace.iter().map(|(t, _)| *t).collect();
+    let out = Sx::L(vec![Sx::L(obs), Sx::L(recs.iter().map(|r| r.enc()).collect()), sx::boolean(ok)]);
+    drop(world);
+    (out, branching, tids)
+}
+
+/// An action by one thread on the shared world: the object is taken out under the world lock, the drop itself
+/// (which may park at sync points) runs outside it.
+fn apply_shared(world: &Arc<Mutex<World>>, op: Op) {
+    let mut doomed: Option<Box<dyn std::any::Any + Send>> = None;
+    {
+        let mut w = world.lock().unwrap();
+        let t = w.sink.tracker.clone();
+        match op {
+            Op::DropOwner(k) => {
+                if !w.owners.is_empty() {
+                    let k = k % w.owners.len();
+                    let o = w.owners.remove(k);
+                    t.owners.fetch_sub(1, SeqCst);
+                    doomed = Some(Box::new(o));
+                }
+            }
+            Op::DropFlush(k) => {
+                if !w.fgs.is_empty() {
+                    let k = k % w.fgs.len();
+                    let g = w.fgs.remove(k);
+                    t.fgs.fetch_sub(1, SeqCst);
+                    doomed = Some(Box::new(g));
+                }
+            }
+            Op::DropForce(k) => {
+                if !w.ffs.is_empty() {
+                    let k = k % w.ffs.len();
+                    let g = w.ffs.remove(k);
+                    t.forced.fetch_add(1, SeqCst);
+                    doomed = Some(Box::new(g));
+                }
+            }
+            other => w.apply(other),
+        }
+    }
+    drop(doomed);
+}
+
+fn dec_prog(x: &Sx) -> Vec<(usize, Op)> {
+    x.list().iter().map(|e| (e.list()[0].num() as usize, dec_op(&e.list()[1]))).collect()
+}
+fn enc_prog(prog: &[(usize, Op)]) -> Sx {
+    Sx::L(prog.iter().map(|(t, o)| Sx::L(vec![sx::n(*t as u64), enc_op(o)])).collect())
+}
+fn enc_ops(ops: &[Op]) -> Sx {
+    Sx::L(ops.iter().map(enc_op).collect())
+}
+fn thread_case(setup: &[Op], prog: &[(usize, Op)], tids: &[usize]) -> Sx {
+    sx::tag(1, vec![enc_ops(setup), enc_prog(prog), Sx::L(tids.iter().map(|&t| sx::n(t as u64)).collect())])
+}
+
+/// Follows a recorded thread sequence; a thread that is not runnable when its turn comes makes the run "diverged".
+fn follow<'a>(tids: &'a [usize], pos: &'a mut usize, diverged: &'a mut bool) -> impl FnMut(&[usize]) -> usize + 'a {
+    move |runnable: &[usize]| {
+        let want = tids.get(*pos).copied();
+        *pos += 1;
+        match want {
+            Some(t) if runnable.contains(&t) => t,
+            _ => {
+                *diverged = true;
+                runnable[0]
+            }
+        }
+    }
+}
+
 pub fn exec(case: &Sx) -> (Sx, bool) {
     match case.tag() {
+        1 => {
+            let setup: Vec<Op> = case.arg(0).list().iter().map(dec_op).collect();
+            let prog = dec_prog(case.arg(1));
+            let tids: Vec<usize> = case.arg(2).list().iter().map(|x| x.num() as usize).collect();
+            let (mut pos, mut diverged) = (0usize, false);
+            let (out, _, _) = {
+                let mut ch = follow(&tids, &mut pos, &mut diverged);
+                exec_threads(&setup, &prog, &mut ch)
+            };
+            let out = if diverged {
+                let mut v = out.list().to_vec();
+                v[2] = sx::boolean(false);
+                Sx::L(v)
+            } else {
+                out
+            };
+            (out, true)
+        }
+        2 => {
+            let setup: Vec<Op> = case.arg(0).list().iter().map(dec_op).collect();
+            let prog = dec_prog(case.arg(1));
+            (sx::boolean(exec_stress(&setup, &prog, case.arg(2).num() as u64).is_ok()), true)
+        }
         _ => {
             let ops: Vec<Op> = case.arg(0).list().iter().map(dec_op).collect();
             let guards = ops.iter().any(|o| matches!(o, Op::NewFlush | Op::NewForce));
@@ -252,6 +526,155 @@ pub fn exec(case: &Sx) -> (Sx, bool) {
             (exec_seq(&ops), guards && owner_dropped)
         }
     }
+}
+
+
+/// Explores the schedules of one configuration depth-first over the choice vector (at most `limit` runs);
+/// if the space is larger, `limit` further runs use seeded random choices. Every run is one case.
+fn explore(out: &mut Out, setup: &[Op], prog: &[(usize, Op)], limit: usize, rng: &mut Rng, label: &str) {
+    let mut choices: Vec<usize> = vec![];
+    let mut runs = 0usize;
+    let mut exhausted = false;
+    loop {
+        let mut pos = 0usize;
+        let cv = choices.clone();
+        let mut choose = |runnable: &[usize]| {
+            let c = cv.get(pos).copied().unwrap_or(0);
+            pos += 1;
+            runnable[c.min(runnable.len() - 1)]
+        };
+        let (imp, branching, tids) = exec_threads(setup, prog, &mut choose);
+        out.case(&thread_case(setup, prog, &tids), &imp, true);
+        out.count(&format!("sched_dfs_{label}"));
+        runs += 1;
+        let mut full: Vec<usize> = (0..branching.len()).map(|j| cv.get(j).copied().unwrap_or(0)).collect();
+        let mut j = full.len();
+        loop {
+            if j == 0 {
+                exhausted = true;
+                break;
+            }
+            j -= 1;
+            if full[j] + 1 < branching[j] {
+                full[j] += 1;
+                full.truncate(j + 1);
+                break;
+            }
+        }
+        if exhausted || runs >= limit {
+            break;
+        }
+        choices = full;
+    }
+    if exhausted {
+        out.count(&format!("sched_space_exhausted_{label}"));
+    } else {
+        for _ in 0..limit {
+            let mut r = rng.fork();
+            let mut choose = |runnable: &[usize]| runnable[r.below(runnable.len() as u64) as usize];
+            let (imp, _, tids) = exec_threads(setup, prog, &mut choose);
+            out.case(&thread_case(setup, prog, &tids), &imp, true);
+            out.count(&format!("sched_random_{label}"));
+        }
+    }
+}
+
+/// Free-running real threads (no scheduler): sync points become a few seeded `yield_now`s. Checked by the
+/// predicate only: exactly one append once everything is dropped, made when nobody owned the entry and the
+/// guards were gone or overridden, carrying every mutation exactly once.
+fn exec_stress(setup: &[Op], prog: &[(usize, Op)], seed: u64) -> Result<(), String> {
+    install_controller();
+    let nthreads = prog.iter().map(|(t, _)| *t + 1).max().unwrap_or(0);
+    let mut w = World::new();
+    for &op in setup {
+        w.apply(op);
+    }
+    let sink = w.sink.clone();
+    let mut expected: Vec<u64> = setup.iter().filter_map(|o| if let Op::Mutate(v) = o { Some(*v) } else { None }).collect();
+    let world = Arc::new(Mutex::new(w));
+    let applied = Arc::new(Mutex::new(Vec::<u64>::new()));
+    let barrier = Arc::new(std::sync::Barrier::new(nthreads));
+    let mut joins = vec![];
+    for tid in 0..nthreads {
+        let ops: Vec<Op> = prog.iter().filter(|(x, _)| *x == tid).map(|(_, o)| *o).collect();
+        let (w2, a2, b2) = (world.clone(), applied.clone(), barrier.clone());
+        joins.push(std::thread::spawn(move || {
+            PERTURB.with(|p| *p.borrow_mut() = Some(Rng::new(seed ^ ((tid as u64 + 1) << 32))));
+            b2.wait();
+            for &op in &ops {
+                sync_point("op");
+                if let Op::Mutate(v) = op {
+                    // a mutation counts when an owner was alive to make it
+                    let alive = !w2.lock().unwrap().owners.is_empty();
+                    if alive { a2.lock().unwrap().push(v); }
+                }
+                apply_shared(&w2, op);
+            }
+            PERTURB.with(|p| *p.borrow_mut() = None);
+        }));
+    }
+    for j in joins {
+        j.join().map_err(|_| "a thread panicked".to_string())?;
+    }
+    // drop what is left (in creation order), then judge
+    {
+        let mut w = world.lock().unwrap();
+        while !w.owners.is_empty() { w.apply(Op::DropOwner(0)); }
+        while !w.fgs.is_empty() { w.apply(Op::DropFlush(0)); }
+        while !w.ffs.is_empty() { w.apply(Op::DropForce(0)); }
+    }
+    let recs = sink.records.lock().unwrap().clone();
+    if recs.len() != 1 {
+        return Err(format!("{} appends after everything was dropped", recs.len()));
+    }
+    let r = &recs[0];
+    if r.owners != 0 || !(r.fgs == 0 || r.forced > 0) {
+        return Err(format!("appended early: live owners {} flush guards {} force guards dropped {}", r.owners, r.fgs, r.forced));
+    }
+    expected.extend(applied.lock().unwrap().iter());
+    let mut got = r.log.clone();
+    got.sort();
+    expected.sort();
+    if got != expected {
+        return Err(format!("content {:?} but mutations made were {:?}", got, expected));
+    }
+    Ok(())
+}
+
+fn stress_case(setup: &[Op], prog: &[(usize, Op)], seed: u64) -> Sx {
+    sx::tag(2, vec![enc_ops(setup), enc_prog(prog), sx::n(seed)])
+}
+
+/// Configurations for the races the property names: last flush guard / force guard / owner on different threads.
+fn curated() -> Vec<(&'static str, Vec<Op>, Vec<(usize, Op)>)> {
+    use Op::*;
+    vec![
+        ("owner_force_guard", vec![NewFlush, NewForce, Mutate(1)],
+         vec![(0, DropOwner(0)), (1, DropForce(0)), (2, DropFlush(0))]),
+        ("two_force_two_guards", vec![NewFlush, NewFlush, NewForce, NewForce],
+         vec![(0, Mutate(2)), (0, DropOwner(0)), (1, DropForce(0)), (1, DropFlush(0)), (2, DropForce(0)), (2, DropFlush(0))]),
+        ("force_force_owner", vec![NewForce, NewForce],
+         vec![(0, DropForce(0)), (1, DropForce(0)), (2, DropOwner(0))]),
+        ("handles", vec![Mutate(3), NewFlush, NewForce, MakeHandle, CloneHandle(0)],
+         vec![(0, Mutate(4)), (0, DropOwner(0)), (1, DropOwner(0)), (2, DropForce(0)), (2, DropFlush(0))]),
+        ("guard_after_force", vec![NewForce],
+         vec![(0, NewFlush), (0, Mutate(5)), (0, DropOwner(0)), (0, DropFlush(0)), (1, DropForce(0))]),
+        ("guards_only", vec![NewFlush, NewFlush, NewFlush],
+         vec![(0, DropOwner(0)), (0, DropFlush(0)), (1, DropFlush(0)), (2, DropFlush(0))]),
+        ("late_force", vec![NewFlush, NewForce, NewForce],
+         vec![(0, DropOwner(0)), (0, DropFlush(0)), (1, DropForce(0)), (2, DropForce(0))]),
+    ]
+}
+
+/// A random configuration: a sequential prefix, then the remaining actions dealt to 2-3 threads.
+fn random_config(rng: &mut Rng) -> (Vec<Op>, Vec<(usize, Op)>) {
+    let len = rng.range(5, 14) as usize;
+    let ops = random_history(rng, len);
+    let cut = rng.range(1, (ops.len() as u64).saturating_sub(2).max(1)) as usize;
+    let nthreads = rng.range(2, 3);
+    let setup = ops[..cut.min(ops.len())].to_vec();
+    let prog = ops[cut.min(ops.len())..].iter().map(|o| (rng.below(nthreads) as usize, *o)).collect();
+    (setup, prog)
 }
 
 struct Caps {
@@ -423,11 +846,24 @@ pub fn run(ctx: &Ctx) {
         let (imp, nt) = exec(&case);
         out.case(&case, &imp, nt);
     };
+    let mut tout = Out::new(ctx, "-t");
     if let Some(p) = &ctx.replay {
         for line in std::fs::read_to_string(p).unwrap().lines().filter(|l| l.starts_with('(')) {
-            emit(&mut out, sx::parse(line));
+            let case = sx::parse(line);
+            if case.tag() == 0 {
+                emit(&mut out, case);
+            } else {
+                if case.tag() == 2 {
+                    let setup: Vec<Op> = case.arg(0).list().iter().map(dec_op).collect();
+                    if let Err(e) = exec_stress(&setup, &dec_prog(case.arg(1)), case.arg(2).num() as u64) {
+                        tout.fail(format!("free-running threads: {e}"), &case);
+                    }
+                }
+                emit(&mut tout, case);
+            }
         }
         out.finish("replay");
+        tout.finish("replay");
         return;
     }
     // exhaustive: every complete history within the caps
@@ -452,5 +888,40 @@ pub fn run(ctx: &Ctx) {
         out.count("random_histories");
         emit(&mut out, sx::tag(0, vec![Sx::L(ops.iter().map(enc_op).collect())]));
     }
+    // scheduled multi-thread runs
+    let limit = if ctx.tier_thorough { 4000 } else { 250 };
+    for (label, setup, prog) in curated() {
+        explore(&mut tout, &setup, &prog, limit, &mut rng, label);
+    }
+    let nconf = if ctx.tier_thorough { 600 } else { 120 };
+    for _ in 0..nconf {
+        let (setup, prog) = random_config(&mut rng);
+        for _ in 0..(if ctx.tier_thorough { 12 } else { 4 }) {
+            let mut r = rng.fork();
+            let mut choose = |runnable: &[usize]| runnable[r.below(runnable.len() as u64) as usize];
+            let (imp, _, tids) = exec_threads(&setup, &prog, &mut choose);
+            tout.case(&thread_case(&setup, &prog, &tids), &imp, true);
+            tout.count("sched_random_config");
+        }
+    }
+    // free-running stress, predicate only
+    let nstress = if ctx.tier_thorough { 300 } else { 40 };
+    let mut confs: Vec<(Vec<Op>, Vec<(usize, Op)>)> = curated().into_iter().map(|(_, a, b)| (a, b)).collect();
+    for _ in 0..20 {
+        confs.push(random_config(&mut rng));
+    }
+    for (setup, prog) in &confs {
+        for _ in 0..nstress {
+            let seed = rng.next();
+            let case = stress_case(setup, prog, seed);
+            let r = exec_stress(setup, prog, seed);
+            if let Err(e) = &r {
+                tout.fail(format!("free-running threads: {e}"), &case);
+            }
+            tout.case(&case, &sx::boolean(r.is_ok()), true);
+            tout.count("stress_runs");
+        }
+    }
+    tout.finish("multi-thread: per configuration (curated races: owner / last flush guard / force guard on different threads, handles, guard created after a force drop; plus random ones) every schedule at sync-point granularity depth-first up to the tier's limit, then seeded random schedules; plus free-running real threads with perturbation at the sync points (predicate only); every case non-trivial");
     out.finish("sequential: every complete create/drop/mutate history within the tier's caps (which live object is dropped enumerated too) plus random longer ones; non-trivial = at least one guard created and an owner dropped; distinct by hash of the case");
 }
